@@ -178,7 +178,10 @@ pub fn get_apid_for_tag(namespace: u32, tag: &str) -> DltChar4 {
                 };
 
                 // does apid exist already?
-                if let Some((_k, _v)) = map.iter().find(|(_k, v)| v == &&apid) {
+                // (we give up searching a unique one once all iteration numbers that fit into the 4 chars
+                // have been tried (or for empty tags where the iteration doesn't change the apid) and reuse that apid)
+                let give_up = iteration >= 9999 || trimmed_tag.is_empty();
+                if let Some((_k, _v)) = map.iter().find(|(_k, v)| !give_up && v == &&apid) {
                     /* println!(
                         "get_apid_for_tag iteration {} apid {} for tag {} exists already for tag {}",
                         iteration, apid, tag, k
